@@ -83,6 +83,20 @@ class TemplateModel:
 				self._inline_sets(b.else_, env)
 				keep.append(b)
 				continue
+			if isinstance(b, (n.For, n.Macro, n.CallBlock, n.FilterBlock, n.With)) and isinstance(getattr(b, 'body', None), list):
+				# the statement's own expressions see the outer bindings; its body may add bindings of its own
+				for field, value in list(b.iter_fields()):
+					if field in ('body', 'else_'):
+						continue
+					if isinstance(value, n.Node):
+						setattr(b, field, self._subst(value, env))
+					elif isinstance(value, list):
+						setattr(b, field, [self._subst(v, env) if isinstance(v, n.Node) else v for v in value])
+				self._inline_sets(b.body, env)
+				if isinstance(getattr(b, 'else_', None), list):
+					self._inline_sets(b.else_, env)
+				keep.append(b)
+				continue
 			keep.append(self._subst(b, env))
 		body[:] = keep
 
